@@ -371,6 +371,27 @@ func runCase(r *mon.Run, c Case) {
 			x.pair(cat[idx], cat[j])
 		}
 		x.unary(cat[idx])
+	case "carrypairs":
+		// pairs whose product has all-ones low limbs (a*b = -1 mod 2^(w*k)) or all-zero low limbs, for both limb
+		// widths: the Montgomery reduction's per-limb quotient and carry chain are at their extremes
+		for i := 0; i < 200; i++ {
+			w := []uint{52, 29, 64}[i%3]
+			k := uint(1 + rng.IntN(5))
+			m := new(big.Int).Lsh(big.NewInt(1), w*k)
+			a := gen.Rand255(rng)
+			a.SetBit(a, 0, 1)
+			inv := new(big.Int).ModInverse(new(big.Int).Mod(a, m), m)
+			low := new(big.Int).Sub(m, inv) // a*low = -1 mod m
+			if i%5 == 0 {
+				low = new(big.Int).Mod(new(big.Int).Mul(inv, L), m) // a*low = L mod m
+			}
+			hi := gen.Rand255(rng)
+			b := new(big.Int).Or(new(big.Int).Lsh(new(big.Int).Rsh(hi, w*k), w*k), low)
+			b.And(b, new(big.Int).Sub(gen.Two255, big.NewInt(1)))
+			x.pair(a, b)
+			x.pair(b, a)
+			x.unary(b)
+		}
 	case "randpairs":
 		for i := 0; i < 200; i++ {
 			a, b := gen.RandScalar(rng, cat), gen.RandScalar(rng, cat)
@@ -411,6 +432,9 @@ func main() {
 	}
 	for i := 0; i < r.Pick(150, 6000); i++ {
 		cases = append(cases, Case{Kind: "randpairs", Stream: fmt.Sprintf("c05/randpairs/%d", i)})
+	}
+	for i := 0; i < r.Pick(40, 1500); i++ {
+		cases = append(cases, Case{Kind: "carrypairs", Stream: fmt.Sprintf("c05/carrypairs/%d", i)})
 	}
 	for i := 0; i < r.Pick(12, 300); i++ {
 		cases = append(cases, Case{Kind: "decode", Stream: fmt.Sprintf("c05/decode/%d", i)})
